@@ -8,6 +8,7 @@ mod floatchk;
 mod native;
 mod ops;
 mod scalar;
+mod trace;
 
 use big::Rat;
 use ops::{Args, Out, Val};
@@ -124,6 +125,10 @@ fn main() {
                     std::process::exit(2);
                 }
             }
+        }
+        "trace" => {
+            panic::set_hook(Box::new(|_| {}));
+            trace::run(argv.get(2).map(|s| s.as_str()).unwrap_or("X"));
         }
         "list" => {
             for n in ops::all_names() {
